@@ -1,5 +1,5 @@
 (* C08 -- Block2: a client fetching blocks in order reassembles exactly the body. *)
-From CoapV Require Import Base Header Packet UintOpt BlockValue Encode Response Accessors BlockHandler proofs.P11.
+From CoapV Require Import Base Header Packet UintOpt BlockValue Encode Response Accessors BlockHandler proofs.P11 proofs.P08b.
 
 (* what one served block is, for every body (the empty one included), block number and size:
    payload = bytes [num*size, num*size+size) of the body, Block2 = (num, more iff bytes remain after it, szx),
@@ -32,6 +32,20 @@ Theorem C08_followup_from_cache : forall req st b2 c rp, first_block OPT_BLOCK2 
   exists req', handle_block2 req st = (Ok true, req', mkBState (Some b2) (if b_num b2 * block_size b2 + block_size b2 <? len (payload c) then Some c else None) (cached_payload st)).
 Proof. exact followup_from_cache. Qed.
 Print Assumptions C08_followup_from_cache.
+
+(* a whole run of follow-ups: requests for blocks k, k+1, ..., the last of which covers the end of the body, are all
+   answered from the cache, their payloads are exactly the chunks of the body from offset k*size on (so, with block 0
+   and C08_chunks_reassemble, the client reassembles the body), and afterwards the cache entry is released *)
+Theorem C08_followups_served : forall szx c reqs k st, cached_resp st = Some c -> k < 65536 ->
+  let sz := 2 ^ (szx + 4) in
+  nums_from k szx reqs -> reqs <> [] ->
+  (k + len reqs - 1) * sz < len (payload c) -> len (payload c) <= (k + len reqs) * sz ->
+  let '(outs, st') := serve_all st reqs in
+  Forall (fun x => fst x = Ok true) outs /\
+  map payload_of outs = chunks_from (length reqs) sz (k * sz) (payload c) /\
+  cached_resp st' = None.
+Proof. exact followups_served. Qed.
+Print Assumptions C08_followups_served.
 
 Example C08_example :
   let body := repeat 7 40 in
